@@ -38,6 +38,8 @@ def contracts():
     out = [c]
     from contracts import c02 as _c02
     out += _c02.all_set_contracts(["C14/"])
+    from contracts import c12 as _c12
+    out.append(_c12.setup_params_contract(["C14/"]))
     return out
 
 
